@@ -192,18 +192,18 @@ var plans = map[string]*propertyPlan{
 	"C03": {ID: "C03", Level: "other", Pkgs: rootPkg,
 		Explain: "Program-order part of per-node FIFO: every call function hands its requests to enqueue itself (never from a goroutine) and before it starts its handler goroutine or returns; enqueue registers before it queues and queues exactly the request it was given; newChannel starts exactly one sender and newNodeStream at most one receiver; the sender passes each dequeued request to sendMsg at most once, sendMsg calls SendMsg at most once and synchronously; the server loop starts at most one handler per received message and receives the next message only after the hand-over mutex came back. That Go channels and one gRPC stream are FIFO, and that these facts compose under every schedule, is trusted."},
 	"C04": {ID: "C04", Level: "proof", Pkgs: rootPkg,
-		Explain: "NodeStream's hand-over protocol proved with ghost counters and a lock token: the loop holds the per-stream mutex at every RecvMsg and at every handler start, hands it to exactly the handler it starts (fresh Once, pointer to this stream's mutex, this stream's context) and re-acquires it before the next receive; Release unlocks only through its Once. Relative to sync.Mutex/sync.Once contracts."},
+		Explain: "NodeStream's hand-over protocol proved with ghost counters and a lock token: the loop holds the per-stream mutex at every RecvMsg and at every handler start, hands it to exactly the handler it starts (fresh Once, pointer to this stream's mutex, this stream's context) and re-acquires it before the next receive; Release unlocks only through its Once; the request object handed to a handler was allocated for it and is never handed to (or reused for) a later handler, so a released handler can still read its own request. Relative to sync.Mutex/sync.Once contracts."},
 	"C05": {ID: "C05", Level: "proof", Pkgs: rootPkg, Extra: modeScan("C05"),
 		Explain: "Router monitor (responseMut) with send credits: enqueue registers exactly the caller's channel under the request's message id before queuing; routeResponse sends only on the channel registered under the id, at most once, deletes a non-streaming entry in the same critical section and leaves every other entry untouched (frame over the whole map); unknown ids are dropped; every response constructed by the channel carries its node's id; reply channels are fresh per call; the message-id counter is only touched atomically."},
 	"C06": {ID: "C06", Level: "proof", Pkgs: rootPkg,
-		Explain: "Send loops of all call types: per node exactly one enqueue on that node's channel with the caller's request, or with exactly the per-node function's result for (request, node id); skipped nodes are neither enqueued nor counted; Unicast/Multicast wait for exactly as many send confirmations as they queued and for none with no-send-waiting; sendMsg routes the confirmation exactly once on every path, from the sender."},
+		Explain: "Send loops of all call types: per node exactly one enqueue on that node's channel with the caller's request, or with exactly the per-node function's result for (request, node id); a node is skipped exactly when the per-node function's message is invalid (ProtoReflect().IsValid() is false - a typed nil in generated code), and skipped nodes are neither enqueued nor counted; the sender gives up on or sends a request only after it saw the node connected or tried to (re)connect for that very request; Unicast/Multicast wait for exactly as many send confirmations as they queued and for none with no-send-waiting; sendMsg routes the confirmation exactly once on every path, from the sender."},
 	"C07": {ID: "C07", Level: "other", Pkgs: rootPkg,
 		Explain: "Sender: per dequeued request exactly one of {handed to sendMsg successfully, one error routed}, every error stamped with the node's id; receiver: on a stream error cancelPendingMsgs runs before anything that can block; cancelPendingMsgs answers every pending router once with the Unavailable stream-down error and removes it; reply loops record one nodeError per failed answer; WrapMessage maps handler errors to their status (Unknown + text for non-status errors). The kind of raw gRPC send errors is not decided."},
 	"C08": {ID: "C08", Level: "other", Pkgs: rootPkg,
 		Explain: "Blocking-effect contracts: every blocking point on a call's own path (RPCCall, QuorumCall, AsyncCall and its handler, CorrectableCall and its handler, Unicast, Multicast, enqueue, sendMsg and its watcher) is a select containing the call's own context, a credited (non-blocking) send, a short-hold lock, or an external stream call trusted to return on cancellation. RPCCall returns the context's own error. Structural condition only: no wall-clock bound is claimed."},
 	"C09": {ID: "C09", Level: "other", Pkgs: rootPkg,
 		Extra:   combine(sweepKinds("C09", map[string]bool{"lockorder": true, "lockset": true, "effect": true}), lockOrder("C09")),
-		Explain: "Local no-wedge disciplines: every send on a router channel is credited (cannot block) for non-streaming routers; no blocking operation while holding responseMut, mu, RawManager.mu or (beyond SendMsg/NodeStream) streamMut; the lock-order graph is acyclic; reply channels have capacity for every registration. No global liveness claim."},
+		Explain: "Local no-wedge disciplines: every send on a router channel is credited (cannot block) for non-streaming routers; no blocking operation while holding responseMut, mu, RawManager.mu or (beyond SendMsg/NodeStream) streamMut; the lock-order graph is acyclic; reply channels have capacity for every registration; a streaming call removes the router of every node of its configuration when it ends. No global liveness claim."},
 	"C10": {ID: "C10", Level: "other", Pkgs: rootPkg, Extra: reconnectWakeup,
 		Explain: "Every NodeStream call site derives its context from the channel's parent context, which newContext builds from the general metadata joined with the per-node metadata of exactly this node; the sender tries to connect before judging a request; newNodeStream starts the receiver at most once; the server's connect callback runs exactly once per connection before the first receive. Clause b (no back-off wait) only as a structural wake-up condition."},
 	"C11": {ID: "C11", Level: "proof", Pkgs: rootPkg, Extra: modeScan("C11"),
@@ -215,7 +215,7 @@ var plans = map[string]*propertyPlan{
 	"C14": {ID: "C14", Level: "proof", Pkgs: rootPkg,
 		Explain: "Configuration constructors verified against quantified contracts: every result is non-nil, strictly sorted by id (hence duplicate-free) and non-empty; operands (slices, id lists, address lists) are provably unmodified, with the precise in-place/reallocating append model; And removes duplicates through its id set, Except/WithoutNodes keep exactly the ids not removed (witness arrays for both directions), WithNodeIDs resolves exactly registered ids to the pooled objects or fails, WithNodeList/WithNodeMap yield for every given address a node carrying its resolved address and reject id/address mismatches; AddNode/Node keep the pool's lookup consistent (whole-map frame). Sorting relies on sort.Sort's trusted contract instantiated through the proved Len/Less/Swap (C19)."},
 	"C15": {ID: "C15", Level: "other", Pkgs: rootPkg, Extra: combine(modeScan("C15"), sweepModes("C15")),
-		Explain: "Ownership discipline: every mutable field of channel, RawManager, Correctable, Async (and the atomic flags) has a declared mode - guarded_by(lock), atomic, immutable after publication, or single writer - and every access in every function of the package is checked against it with the lockset tracked through the symbolic execution (objects not yet published are exempt). If every access respects its mode no two conflicting accesses are unordered. Silent on gRPC/protobuf internals."},
+		Explain: "Ownership discipline: every mutable field of channel, RawManager, Correctable, Async (and the atomic flags) has a declared mode - guarded_by(lock), atomic, immutable after publication, or single writer - and every access in every function of the package is checked against it with the lockset tracked through the symbolic execution (objects not yet published are exempt). Objects that are not safe for concurrent use (the per-channel random source) are confined to named functions; a guarded slice or map must not be returned, re-sliced or not. If every access respects its mode no two conflicting accesses are unordered. Silent on gRPC/protobuf internals."},
 	"C16": {ID: "C16", Level: "other", Pkgs: []string{modPath + "/cmd/protoc-gen-gorums/gengorums"}, Gen: true, GenToolsOnly: true,
 		Extra: func(s *Session, tier string) []*FuncResult {
 			runs := 3
@@ -224,15 +224,16 @@ var plans = map[string]*propertyPlan{
 			}
 			out := []*FuncResult{ScanMapRanges(s, "C16", map[string]string{
 				"gengorums.callTypeOptions":                 "after validateOptions a method carries at most one call-type option (obligation C16.exclusive), so the collected list has at most one element",
-				"(*gengorums.callTypeInfo).deriveCallType": "the nested call types' check functions are mutually exclusive (async vs. plain quorum call; stream vs. plain correctable)",
+				"(*gengorums.callTypeInfo).deriveCallType": "at most one nested check function holds for any method: discharged as obligations nested-call-types/exclusive[...] over the real closures of the table",
 				"gengorums.findIdentifiers":                 "bundle time only: identifiers are collected per package and sorted (sort.Strings) before the first element is used",
 			})}
+			out = append(out, NestedCallTypesExclusive(s, "C16")...)
 			if curGen != nil {
 				out = append(out, curGen.GeneratorRuns("C16", runs))
 			}
 			return out
 		},
-		Explain: "Decision logic of the generator under contract: validateOptions is proved, over uninterpreted option and stream flags, to reject every documented illegal combination and to accept every combination of the documented option matrix; hasMethodOption/hasAllMethodOption are proved to be the existential/universal over their variadic list. Emission order: every range over a Go map in package gengorums must only collect keys that are sorted before use (structural obligation). Supplementary bounded checks, labelled as such: the freshly built plugin is run 3 times on each repository descriptor (byte-identical output) and on descriptors mutated in memory with each illegal pair of options (a diagnostic is required). 'The emitted text compiles for every service definition' is not applicable to this family."},
+		Explain: "Decision logic of the generator under contract: validateOptions is proved, over uninterpreted option and stream flags, to reject every documented illegal combination and to accept every combination of the documented option matrix; hasMethodOption/hasAllMethodOption are proved to be the existential/universal over their variadic list. Emission order: every range over a Go map in package gengorums must only collect keys that are sorted before use (structural obligation); the one first-hit range (deriveCallType over nested call types) is order-independent because the nested check functions - the real closures of the table, inlined over an arbitrary method - are proved pairwise exclusive. Supplementary bounded checks, labelled as such: the freshly built plugin is run 3 times on each repository descriptor (identical names, order and bytes) and on descriptors mutated in memory with each illegal pair of options (a diagnostic is required). 'The emitted text compiles for every service definition' is not applicable to this family."},
 	"C17": {ID: "C17", Level: "other", Gen: true,
 		Extra: func(s *Session, tier string) []*FuncResult {
 			if curGen == nil {
@@ -240,7 +241,7 @@ var plans = map[string]*propertyPlan{
 			}
 			return append([]*FuncResult{curGen.ScanServers(s, "C17")}, curGen.VerifyAccessors(s, "C17")...)
 		},
-		Explain: "On every run the plugin is built from the working tree and run on CodeGeneratorRequests assembled from the descriptors the repository's packages register (no protoc); its output replaces the committed *_gorums.pb.go as a go/packages overlay. Part 1 (binding): every regenerated client stub is symbolically executed against a schema contract rendered from the descriptor (not from the templates): it calls exactly the runtime entry of its call type, once, with Method == the method's full name, the caller's request and context, per-node adapter iff per_node_arg, quorum function set, ServerStream as declared, options passed through; every Register<S>Server registers each method exactly once under its full name with a handler that calls that implementation method once, releases on return and replies per its shape. Part 2 (currency): regenerated output and a fresh bundle equal the committed files, comments aside."},
+		Explain: "On every run the plugin is built from the working tree and run on CodeGeneratorRequests assembled from the descriptors the repository's packages register (no protoc); its output replaces the committed *_gorums.pb.go as a go/packages overlay. Part 1 (binding) runs on descriptors whose methods are renamed in memory to lower_snake_case - every generated Go identifier stays as it is, but every wire name now differs from all of them: every regenerated client stub is symbolically executed against a schema contract rendered from the descriptor (not from the templates): it calls exactly the runtime entry of its call type, once, with Method == the method's full name, the caller's request and context, per-node adapter iff per_node_arg, quorum function set, ServerStream as declared, options passed through; every Register<S>Server registers each method exactly once under its full name with a handler that calls that implementation method once, releases on return and replies per its shape. Part 2 (currency): regenerated output and a fresh bundle equal the committed files, comments aside."},
 	"C18": {ID: "C18", Level: "proof", Pkgs: rootPkg,
 		Explain: "No residue: a non-streaming router is deleted in the critical section that answers it (routeResponse, cancelPendingMsgs - which leaves no router at all); enqueue registers nothing for a nil reply channel; sendMsg's confirmation removes the one-way router on every path; sendMsg closes its watcher's done channel exactly once on every path after starting it; the handler goroutines of async and correctable calls leave their loop exactly under the completion conditions and close/complete exactly once."},
 	"C19": {ID: "C19", Level: "proof", Pkgs: rootPkg,
